@@ -11,14 +11,16 @@ PROPS = {
             {'template': 'units/c07_binop_plan.rs.in', 'modes': [[]], 'canary': True},
             {'template': 'units/c07_compound_tables.rs.in', 'modes': [[]], 'canary': True},
             {'template': 'units/c04_parse_compound.rs.in', 'modes': [[]], 'canary': True},
+            {'template': 'units/c07_lower.rs.in', 'modes': [[]], 'canary': True},
+            {'template': 'units/c04_emit_glue.rs.in', 'modes': [[]], 'canary': True},
         ],
         'kani': [{'name': 'c04', 'jobs': 8, 'timeout': 1500}],
         # the parser's desugaring of compound assignment on fields / list elements and the recursive descent around the
         # arms under contract: bounded stand-in through the real front end + code generator (emit_binop_expr, the
         # lowering's two arithmetic arms and the checker's compound arm are under contract in the units above)
         'bounded_standins': [
-            {'oracle': 'incan::emit_division', 'cases': 72, 'function': 'parser + lowering of `L op R` / `T op= R` (compound assignment on locals, fields and list elements; const initializers) and emit_binop_expr',
-             'bound': 'exhaustive over / // % x int/float left x int/float right x 6 forms (plain, plain with a negated left operand, compound on a local / field / list element, const initializer over literals); fixed program shapes; checks helper, operand order and promotions in the generated call (a folded const must have Python\'s value)'},
+            {'oracle': 'incan::emit_division', 'cases': 132, 'function': 'parser + lowering of `L op R` / `T op= R` (compound assignment on locals, fields and list elements; const initializers) and emit_binop_expr',
+             'bound': 'exhaustive over / // % x int/float left x int/float right x 11 forms (plain, plain with a negated left operand, compound on a local / field / list element, const initializer over literals, bare expression statement, inside int(..), parenthesised operands, call result as left operand, body of a lambda with an untyped parameter); fixed program shapes; checks helper, operand order and promotions in the generated call (a folded const must have Python\'s value)'},
         ],
         # one concrete execution per documented message on the REAL crates (the Display impl that renders the
         # error value is outside both verifiers; the contracts pin the value, these pin its text)
@@ -56,8 +58,8 @@ PROPS = {
         'bounded_standins': [
             {'oracle': 'incan::emit_range', 'cases': 155, 'function': 'emit_range_call (call site of the runtime range) and the lowering of for loops over range',
              'bound': 'exhaustive over range(e), range(s, e), range(s, e, k) x {variable, 0, negative literal, 2, expression} per written argument; one fixed program shape; checks argument positions and the defaults 0 / 1 in the generated call'},
-            {'oracle': 'incan::emit_slice', 'cases': 281, 'function': 'parser index_or_slice/parse_slice, lowering of Index/Slice, emit_index_expr, emit_slice_expr',
-             'bound': 'exhaustive over str/list target x {omitted, variable, 0, -1} start x same end x {omitted, variable, -1, 2} step x compact/spaced spelling, plus 4 index reads, 4 element assignments (list_get_mut) a dict read (dict_get), a nested index `grid[r][c]`, a dict compound assignment 8 reads whose object is a field or a call result (`b.xs[st]`, `word()[st:]`, ..) and 2 programs with reads inside two f-strings; one fixed program shape; checks the helper and the position of every bound in the generated call'},
+            {'oracle': 'incan::emit_slice', 'cases': 287, 'function': 'parser index_or_slice/parse_slice, lowering of Index/Slice, emit_index_expr, emit_slice_expr',
+             'bound': 'exhaustive over str/list target x {omitted, variable, 0, -1} start x same end x {omitted, variable, -1, 2} step x compact/spaced spelling, plus 4 index reads, 4 element assignments (list_get_mut) a dict read (dict_get), a nested index `grid[r][c]`, a dict compound assignment 8 reads whose object is a field or a call result (`b.xs[st]`, `word()[st:]`, ..) 2 programs with reads inside two f-strings and 6 further statement contexts (nested assignment target `g[r][c] = v`, `for` over a slice with literal bounds, a list bound to a `match` expression); one fixed program shape; checks the helper and the position of every bound in the generated call'},
         ],
         'pins': [
             ('stdlib::str_index', {'s': 'héllo', 'i': 5}), ('stdlib::str_index', {'s': 'héllo', 'i': -6}), ('stdlib::str_index', {'s': 'héllo', 'i': -4}),
@@ -92,6 +94,7 @@ PROPS = {
             {'template': 'units/c07_check_assign.rs.in', 'modes': [[]], 'canary': True},
             {'template': 'units/c07_const_eval.rs.in', 'modes': [[]], 'canary': True},
             {'template': 'units/c04_parse_compound.rs.in', 'modes': [[]], 'canary': True},
+            {'template': 'units/c04_emit_glue.rs.in', 'modes': [[]], 'canary': True},
         ],
         'kani': [],
         'not_covered': [
@@ -101,12 +104,16 @@ PROPS = {
         # functions that cannot be brought within the verifier's reach (methods on the checker's state): a bounded
         # stand-in through the REAL front end (lex + parse + check), exhaustive over the stated space; labelled bounded
         'bounded_standins': [
+            {'oracle': 'incan::emit_division', 'cases': 132, 'function': '(shared with C04: operand promotions) parser + lowering of `L op R` / `T op= R` (compound assignment on locals, fields and list elements; const initializers) and emit_binop_expr',
+             'bound': 'exhaustive over / // % x int/float left x int/float right x 11 forms (plain, plain with a negated left operand, compound on a local / field / list element, const initializer over literals, bare expression statement, inside int(..), parenthesised operands, call result as left operand, body of a lambda with an untyped parameter); fixed program shapes; checks helper, operand order and promotions in the generated call (a folded const must have Python\'s value)'},
             {'oracle': 'incan::static_type', 'cases': 9408, 'function': 'TypeChecker: annotated let / return / call argument of a binary expression',
              'bound': 'exhaustive over 7 operators x int/float operand kinds x int/float annotation x 7 right-operand forms (variable, const, literal, 0, negative literal, parenthesised, double minus) x 4 binding positions (let, return, argument, const initializer) x bare / parenthesised right-hand side x 3 annotation spellings (int / Int / INT); fixed program shapes; accepted iff the annotation is the kind given by the table'},
+            {'oracle': 'incan::static_type_sources', 'cases': 112, 'function': 'TypeChecker: typing of operands that come out of typed containers and builtins (check_builtin_call zip / enumerate, index, dict value, len)',
+             'bound': 'exhaustive over 8 operand sources (zip pair.0 / pair.1, enumerate pair.0 / pair.1, list element int / float, dict value, len()) x 7 operators x int / float annotation; `y: T = SRC <op> 2` accepted iff T is the table kind'},
             {'oracle': 'incan::static_type_nested', 'cases': 1500, 'function': 'TypeChecker on nested arithmetic (check_binary applied recursively through check_expr, Paren, Unary)',
              'bound': 'a seeded sample of 1500 random expression trees of depth <= 3 over int/float variables, fields and literals with all seven operators, optionally under a comparison; annotated let; NOT exhaustive'},
-            {'oracle': 'incan::emit_promotion', 'cases': 1408, 'function': 'lowering (operand typing, compound-assignment desugaring) + emit_binop_expr for + - * and **',
-             'bound': 'exhaustive over 4 operators x 4 left forms (int/float variable, int/float field) x 11 right forms (variables, fields, len(), index, literals incl. literal ** literal beyond i64) x plain/compound x flat / inner block shadowing outer variables of the other kind x with / without module-level string constants named like the variables; checks which operands are promoted / pow vs powf in the generated Rust'},
+            {'oracle': 'incan::emit_promotion', 'cases': 3584, 'function': 'lowering (operand typing, compound-assignment desugaring) + emit_binop_expr for + - * and **',
+             'bound': 'exhaustive over 4 operators x 4 left forms (int/float variable, int/float field) x 14 right forms (variables, fields, len(), index, literals incl. literal ** literal beyond i64, parenthesised field / call) x plain/compound x flat / inner block shadowing outer variables of the other kind x with / without module-level string constants named like the variables x compound target local / field of a local model value; checks which operands are promoted / pow vs powf in the generated Rust'},
             {'oracle': 'incan::compound_assign', 'cases': 72, 'function': 'parser desugaring of compound assignment on fields / list elements + TypeChecker::check_statement, CompoundAssignment arm',
              'bound': 'exhaustive over 6 compound operators x int/float target x int/float value x local / field / list-element target; fixed program shapes'},
         ],
@@ -127,16 +134,18 @@ PROPS = {
         'bounded_standins': [
             {'oracle': 'incan::fmt_error_location', 'cases': 15, 'function': 'format_source_with_config error path (which text it lexes vs which text it renders the error against)',
              'bound': 'exhaustive over 5 document prefixes (none, BOM, comment lines with multi-byte / astral characters, CRLF) x 3 positions of a stray `!`; the reported <input>:line:col must agree with counting in the given text'},
-            {'oracle': 'syntax::format_error_location', 'cases': 400, 'function': 'format_error (the call site of get_line_info: which offset it passes, how it prints line:col)',
-             'bound': 'exhaustive over 13 fixed documents x every span start in 0..=len+1 plus two huge offsets; the `--> file:line:col` header must agree with counting newlines and characters (known byte-column class excluded)'},
+            {'oracle': 'syntax::format_error_location', 'cases': 450, 'function': 'format_error (the call site of get_line_info: which offset it passes, how it prints line:col)',
+             'bound': 'exhaustive over 15 fixed documents (incl. tab-indented lines) x every span start in 0..=len+1 plus two huge offsets; the `--> file:line:col` header must agree with counting newlines and characters'},
             {'oracle': 'lsp::published_ranges', 'cases': 6, 'function': 'src/lsp/backend.rs analyze_document (what the server publishes)',
              'bound': 'the real server behind tower_lsp::Server over an in-memory pipe (initialize, initialized, didOpen) on 6 fixed ill-formed documents whose errors follow multi-byte / astral characters or CRLF; every published range (and related-information range) must lie inside the document'},
             {'oracle': 'lsp::dependency_ranges', 'cases': 12, 'function': 'src/lsp/backend.rs collect_dependency_modules (what the server publishes for an imported module that does not lex / parse, and the summary on the import)',
              'bound': 'the real server behind tower_lsp::Server over an in-memory pipe on 3 entry documents (many short lines, a single line, non-ASCII comment lines before the import) x 4 dependency files on disk (one long line with a stray character, non-ASCII text before the error, a parse error on the last of several lines, CRLF); every range published under the dependency URI must lie inside the DEPENDENCY text and start where the front end\'s span starts; every range published for the entry document must lie inside the entry text'},
+            {'oracle': 'lsp::pipe_ranges', 'cases': 9, 'function': 'src/lsp/backend.rs: every request handler the server advertises in its capabilities (present and future: documentSymbol, references, folding ranges, ...)',
+             'bound': 'the real server behind tower_lsp::Server over an in-memory pipe on the same 9 documents: after initialize, each advertised provider is queried (document-wide requests once, position-based ones at every line start, every third character boundary and the end of the text) and every {start, end} range anywhere in the answers must lie inside the document'},
             {'oracle': 'lsp::server_ranges', 'cases': 700, 'function': 'src/lsp/backend.rs hover / goto_definition (call sites of span_to_range and position_to_offset)',
-             'bound': 'the real IncanLanguageServer driven with did_open + hover + goto_definition on 6 fixed documents (plain, decorated declarations, multi-byte and astral characters, CRLF, enum, syntax error) x every character boundary as the cursor; every returned range must lie inside the document'},
-            {'oracle': 'lsp::diagnostic_range', 'cases': 12000, 'function': 'compile_error_to_diagnostic',
-             'bound': 'exhaustive over 13 fixed documents (ASCII, multi-byte, astral, LF/CRLF, empty lines) x every (start, end) in 0..=len+1 plus two huge offsets; checks the range and every related-information range'},
+             'bound': 'the real IncanLanguageServer driven with did_open + hover + goto_definition on 9 fixed documents (plain, decorated declarations, multi-byte and astral characters, CRLF, enum, syntax error, no final newline x2, tab-indented with a decorated declaration last) x every character boundary as the cursor; every returned range must lie inside the document'},
+            {'oracle': 'lsp::diagnostic_range', 'cases': 13500, 'function': 'compile_error_to_diagnostic',
+             'bound': 'exhaustive over 15 fixed documents (ASCII, multi-byte, astral, LF/CRLF, empty lines, tabs) x every (start, end) in 0..=len+1 plus two huge offsets; checks the range and every related-information range'},
         ],
         'assumptions': [
             'A2: documents have fewer than 2^32 characters (LSP positions are u32) and fewer than usize::MAX bytes',
